@@ -54,7 +54,7 @@ func c11WriteModule(root string) error {
 	os.WriteFile(filepath.Join(root, "c11lib", "lib.go"), []byte(c11Tmpl("lib.go.tmpl")), 0o644)
 	calls := c11Tmpl("calls.go.tmpl")
 	marker := "// {{FN}} performs"
-	fnBody := calls[strings.Index(calls, marker):]
+	fnBody := calls[strings.Index(calls, marker):strings.Index(calls, "// {{FN}}Deep recurses")]
 	os.MkdirAll(filepath.Join(root, "helperpkg"), 0o755)
 	os.WriteFile(filepath.Join(root, "helperpkg", "helper.go"),
 		[]byte(strings.NewReplacer("{{PKG}}", "helperpkg", "{{FN}}", "Call", "{{WHERE}}", "helper in another package").Replace(calls)), 0o644)
@@ -137,8 +137,15 @@ func runC11(tier, scratch, replay string, nworkers int) *merged {
 	} else {
 		for _, depth := range []string{"", "sub", "sub/deep"} {
 			for _, gr := range []bool{false, true} {
-				runs = append(runs, c11Run{Depth: depth, Build: "plain", GOROOT: gr}, c11Run{Depth: depth, Build: "plain", Chdir: true, GOROOT: gr},
-					c11Run{Depth: depth, Build: "trimpath-flag", GOROOT: gr}, c11Run{Depth: depth, Build: "trimpath-goflags", GOROOT: gr})
+				all := []c11Run{{Depth: depth, Build: "plain", GOROOT: gr}, {Depth: depth, Build: "plain", Chdir: true, GOROOT: gr},
+					{Depth: depth, Build: "trimpath-flag", GOROOT: gr}, {Depth: depth, Build: "trimpath-goflags", GOROOT: gr}}
+				for i, r := range all {
+					// quick: the full matrix at the module root, a diagonal of it in the nested packages
+					if tier == "quick" && depth != "" && !((depth == "sub") == (i%2 == 0) && gr == (i < 2) || r.Build == "trimpath-flag" && gr) {
+						continue
+					}
+					runs = append(runs, r)
+				}
 			}
 		}
 	}
